@@ -39,25 +39,18 @@ Proof.
 Qed.
 
 (* ------------------------------------------------- name_of_val ------------ *)
-Lemma name_of_val_unique : forall (D : list (string * Z)) n v,
-  NoDup (map snd D) -> In (n, v) D -> name_of_val D v = Some n.
-Proof.
-  intros D n v. unfold name_of_val. induction D as [|[n0 v0] D IH]; intros Hnd Hin; [destruct Hin|].
-  simpl in Hnd. inversion Hnd as [|x xs Hnin Hnd']; subst. simpl.
-  destruct Hin as [Heq|Hin].
-  - inversion Heq; subst. rewrite Z.eqb_refl. reflexivity.
-  - destruct (Z.eqb_spec v0 v) as [Hv|Hv].
-    + subst v0. exfalso. apply Hnin. change v with (snd (n, v)). apply in_map. exact Hin.
-    + apply IH; assumption.
-Qed.
-
 Lemma name_of_val_none : forall (D : list (string * Z)) v,
   ~ In v (map snd D) -> name_of_val D v = None.
 Proof.
-  intros D v. unfold name_of_val. induction D as [|[n0 v0] D IH]; intros Hnin; [reflexivity|].
-  simpl. destruct (Z.eqb_spec v0 v) as [Hv|Hv].
-  - exfalso. apply Hnin. left. exact Hv.
-  - apply IH. intros Hin. apply Hnin. right. exact Hin.
+  intros D v Hnin. unfold name_of_val. rewrite first_name_firstv.
+  rewrite (proj2 (firstv_none D v) Hnin). reflexivity.
+Qed.
+
+Lemma dedup_z_map : forall l prev, dedup_z prev (map snd l) = map snd (ddedup prev l).
+Proof.
+  induction l as [|x l IH]; intros prev; [reflexivity|].
+  cbn [map dedup_z ddedup]. rewrite IH.
+  destruct (match prev with Some b => b =? snd x | None => false end); reflexivity.
 Qed.
 
 (* --------------------------------------- the compiler's constants --------- *)
@@ -116,10 +109,7 @@ Section Model04.
   Proof.
     unfold the_gen, generate. fold p T fl. rewrite Hk. fold g.
     destruct (g_names g) eqn:Hn; [|reflexivity].
-    exfalso. unfold g in Hn. rewrite (names_eq p T k fl Hg Hk) in Hn. apply map_eq_nil in Hn.
-    apply Hne. destruct (declared T p) as [|x l]; [reflexivity|]. exfalso.
-    assert (Hin : In x (dsort (x :: l))) by (apply dsort_In; left; reflexivity).
-    rewrite Hn in Hin. exact Hin.
+    exfalso. apply Hne. apply (names_nil_iff p T k fl Hg Hk). exact Hn.
   Qed.
 
   Lemma declared_obs_model : declared_obs c (model_obs c o) = D.
@@ -136,8 +126,8 @@ Section Model04.
     intros x. unfold spec_string. fold fl. rewrite Hnb.
     destruct (in_dec Z.eq_dec x (map snd D)) as [Hin|Hnin].
     - apply in_map_iff in Hin. destruct Hin as [[n v] [Hv Hin]]. cbn in Hv. subst v.
-      rewrite (name_of_val_unique D n x (gd_vals _ _ Hg) Hin).
-      unfold trim. fold T. symmetry. apply (str_of_declared p T k fl Hg Hk n x Hin).
+      destruct (str_of_declared p T k fl Hg Hk n x Hin) as [n1 [Hf [_ Hs]]].
+      unfold name_of_val. unfold D. rewrite Hf. unfold trim. fold T. symmetry. exact Hs.
     - rewrite (name_of_val_none D x Hnin). symmetry.
       apply (str_of_undeclared p T k fl Hg Hk x Hnb Hnin).
   Qed.
@@ -150,21 +140,21 @@ Section Model04.
     split_left.
     all: unfold ce, g, D.
     - apply (fresh_compiles p T k fl Hg Hk).
-    - rewrite (values_eq p T k fl Hg Hk), sort_z_dsort. apply list_eqb_Z_refl.
+    - rewrite (values_eq p T k fl Hg Hk), sort_z_dsort, dedup_z_map. apply list_eqb_Z_refl.
     - rewrite (values_strings_length p T k fl Hg Hk). apply Nat.eqb_refl.
     - rewrite (strings_eq p T k fl Hg Hk), (values_eq p T k fl Hg Hk), map_map.
-      assert (Heq : map (trimT T) (dsort (declared T p)) =
+      assert (Heq : map (trimT T) (ddedup None (dsort (declared T p))) =
                     map (fun x => match name_of_val (declared T p) (snd x) with Some n => trim c n | None => "?" end)
-                        (dsort (declared T p))).
-      { apply map_ext_in. intros [n v] Hin. apply (proj1 (dsort_In _ (n, v))) in Hin. cbn [snd].
-        rewrite (name_of_val_unique _ n v (gd_vals _ _ Hg) Hin). reflexivity. }
+                        (ddedup None (dsort (declared T p)))).
+      { apply map_ext_in. intros [n v] Hin. cbn [snd]. unfold name_of_val.
+        rewrite (U_first p T n v Hin). reflexivity. }
       rewrite Heq. apply list_eqb_S_refl.
-    - rewrite (string_map_eq p T k fl Hg Hk), map_length.
-      rewrite (Permutation_length (dsort_perm (declared T p))). apply Nat.eqb_refl.
+    - rewrite (string_map_eq p T k fl Hg Hk), (values_eq p T k fl Hg Hk), !map_length. apply Nat.eqb_refl.
     - rewrite (value_map_eq p T k fl Hg Hk), map_length.
       rewrite (Permutation_length (dsort_perm (declared T p))). apply Nat.eqb_refl.
     - apply forallb_forall. intros [n v] Hin. cbn [fst snd]. unfold trim. fold T.
-      rewrite (string_map_declared p T k fl Hg Hk n v Hin), (value_map_declared p T k fl Hg Hk n v Hin).
+      destruct (string_map_declared p T k fl Hg Hk n v Hin) as [n1 [Hf [_ Hsm]]].
+      rewrite Hsm, (value_map_declared p T k fl Hg Hk n v Hin). unfold name_of_val. rewrite Hf.
       rewrite String.eqb_refl, Z.eqb_refl. reflexivity.
     - apply forallb_forall. intros [x [s b]] Hin. apply in_map_iff in Hin.
       destruct Hin as [xo [Heq Hin]]. inversion Heq; subst. clear Heq.
@@ -276,8 +266,9 @@ Section Model04.
       assert (Ht : unmarshal_text ce g (marshal_text ce g x) t0 = (None, x))
         by (apply (text_roundtrip p T k fl Hg Hk n x t0 Hin)).
       assert (Hs : scan ce g (match sql_value ce g x with SStr s => SBytes s | v => v end) t0 = (None, x)).
-      { unfold sql_value. unfold ce, g. rewrite (str_of_declared p T k fl Hg Hk n x Hin).
-        unfold scan. rewrite (parse_enum_hit p T k fl Hg Hk n x Hin). reflexivity. }
+      { destruct (str_of_declared p T k fl Hg Hk n x Hin) as [n1 [_ [Hin1 Hso]]].
+        unfold sql_value. unfold ce, g. rewrite Hso.
+        unfold scan. rewrite (parse_enum_hit p T k fl Hg Hk n1 x Hin1). reflexivity. }
       destruct (codec =? 0); [rewrite Hj; cbn; rewrite Z.eqb_refl; reflexivity|].
       destruct (codec =? 1); [rewrite Ht; cbn; rewrite Z.eqb_refl; reflexivity|].
       destruct (codec =? 2); [rewrite Hs; cbn; rewrite Z.eqb_refl; reflexivity|].
@@ -334,10 +325,7 @@ Proof.
   intros c Hg Hnone. unfold the_gen, generate in Hnone.
   destruct (kind_of_type (c_pkg c) (c_type c)) as [k|] eqn:Hk.
   - destruct (g_names (make_str (c_pkg c) (c_type c) k (c_flags c))) eqn:Hn; [|discriminate].
-    rewrite (names_eq _ _ k _ Hg Hk) in Hn. apply map_eq_nil in Hn.
-    destruct (declared (c_type c) (c_pkg c)) as [|x l]; [reflexivity|]. exfalso.
-    assert (Hin : In x (dsort (x :: l))) by (apply dsort_In; left; reflexivity).
-    rewrite Hn in Hin. exact Hin.
+    apply (names_nil_iff _ _ k (c_flags c) Hg Hk). exact Hn.
   - apply declared_needs_type; [exact (gd_wf _ _ Hg) | exact Hk].
 Qed.
 
@@ -349,7 +337,7 @@ Proof.
   destruct (the_gen c) as [g|] eqn:Hgen.
   - destruct (generate_inv _ _ _ _ Hgen) as [k [Hk [Hgeq Hne]]].
     apply (Pb04_model c o k Hgd Hk Hnb).
-    intros Hnil. apply Hne. subst g. rewrite (names_eq _ _ k _ Hgd Hk), Hnil. reflexivity.
+    intros Hnil. apply Hne. subst g. apply (names_nil_iff _ _ k _ Hgd Hk). exact Hnil.
   - pose proof (the_gen_none_declared c Hgd Hgen) as Hnil.
     unfold Pb04, declared_obs, model_obs. rewrite Hgen, Hnil. reflexivity.
 Qed.
@@ -489,10 +477,7 @@ Section Model14.
   Proof.
     unfold the_gen, generate. fold p T fl. rewrite Hk. fold g.
     destruct (g_names g) eqn:Hn; [|reflexivity].
-    exfalso. unfold g in Hn. rewrite (names_eq p T k fl Hg Hk) in Hn. apply map_eq_nil in Hn.
-    apply Hne. destruct (declared T p) as [|x l]; [reflexivity|]. exfalso.
-    assert (Hin : In x (dsort (x :: l))) by (apply dsort_In; left; reflexivity).
-    rewrite Hn in Hin. exact Hin.
+    exfalso. apply Hne. apply (names_nil_iff p T k fl Hg Hk). exact Hn.
   Qed.
 
   Lemma declared_obs_model14 : declared_obs c (model_obs c o) = D.
@@ -517,8 +502,9 @@ Section Model14.
     match name_of_val D b with Some n => trim c n | None => "?" end = name_of ce g b.
   Proof.
     intros b Hin. apply in_map_iff in Hin. destruct Hin as [[n v] [Hv Hin]]. cbn in Hv. subst v.
-    rewrite (name_of_val_unique D n b (gd_vals _ _ Hg) Hin). unfold trim. fold T.
-    symmetry. apply name_of_declared; assumption.
+    destruct (first_name_declared p T n b Hin) as [n1 [Hf _]].
+    unfold name_of_val. unfold D. rewrite Hf. unfold trim. fold T.
+    symmetry. apply name_of_first; assumption.
   Qed.
 
   (* the declarative String() of the -bit specification = the generated String() *)
@@ -528,8 +514,8 @@ Section Model14.
     intros x Hbd. unfold spec_bit_string.
     destruct (in_dec Z.eq_dec x (map snd D)) as [Hin|Hnin].
     - apply in_map_iff in Hin. destruct Hin as [[n v] [Hv Hin]]. cbn in Hv. subst v.
-      rewrite (name_of_val_unique D n x (gd_vals _ _ Hg) Hin).
-      unfold trim. fold T. symmetry. apply (str_of_declared p T k fl Hg Hk n x Hin).
+      destruct (str_of_declared p T k fl Hg Hk n x Hin) as [n1 [Hf [_ Hs]]].
+      unfold name_of_val. unfold D. rewrite Hf. unfold trim. fold T. symmetry. exact Hs.
     - rewrite (name_of_val_none D x Hnin).
       assert (Hnin' : ~ In x (t_values ce g)).
       { intros Hin. apply Hnin. apply (values_in p T k fl Hg Hk). exact Hin. }
@@ -635,7 +621,7 @@ Proof.
   destruct (the_gen c) as [g|] eqn:Hgen.
   - destruct (generate_inv _ _ _ _ Hgen) as [k' [Hk' [Hgeq Hne]]].
     apply (Pb12_model c o k' Hgd Hk' Hnb).
-    intros Hnil. apply Hne. subst g. rewrite (names_eq _ _ k' _ Hgd Hk'), Hnil. reflexivity.
+    intros Hnil. apply Hne. subst g. apply (names_nil_iff _ _ k' _ Hgd Hk'). exact Hnil.
   - pose proof (the_gen_none_declared c Hgd Hgen) as Hnil.
     unfold Pb12, declared_obs, model_obs. rewrite Hgen, Hnil, Hk. reflexivity.
 Qed.
@@ -649,7 +635,7 @@ Proof.
   destruct (the_gen c) as [g|] eqn:Hgen.
   - destruct (generate_inv _ _ _ _ Hgen) as [k [Hk [Hgeq Hne]]].
     assert (Hne' : declared (c_type c) (c_pkg c) <> []).
-    { intros Hnil. apply Hne. subst g. rewrite (names_eq _ _ k _ Hg Hk), Hnil. reflexivity. }
+    { intros Hnil. apply Hne. subst g. apply (names_nil_iff _ _ k _ Hg Hk). exact Hnil. }
     unfold Pb14. rewrite (declared_obs_model c o k Hg Hk Hne').
     pose proof (the_gen_some c k Hg Hk Hne') as Hsome.
     unfold model_obs. rewrite Hsome. cbn [o_built o_bitn o_bitstr o_points o_bitops].
@@ -674,7 +660,7 @@ Proof.
   destruct (the_gen c) as [g|] eqn:Hgen.
   - destruct (generate_inv _ _ _ _ Hgen) as [k [Hk [Hgeq Hne]]].
     apply (Pb14_model c o k Hg Hk Hbit).
-    intros Hnil. apply Hne. subst g. rewrite (names_eq _ _ k _ Hg Hk), Hnil. reflexivity.
+    intros Hnil. apply Hne. subst g. apply (names_nil_iff _ _ k _ Hg Hk). exact Hnil.
   - pose proof (the_gen_none_declared c Hg Hgen) as Hnil.
     unfold Pb14, declared_obs, model_obs. rewrite Hgen, Hnil, Hbit. cbn. reflexivity.
 Qed.
